@@ -14,11 +14,20 @@ import (
 // InitBMNumber creates a new BMNumber for a string
 func ImportString(input string) (*BMNumber, error) {
 
+	// The import function runs outside the lock: it may register a dynamical type itself
+	var matched *regexp.Regexp
+	var importFunc ImportFunc
+	registryMu.RLock()
 	for k, v := range AllMatchers {
 		re := regexp.MustCompile(k)
 		if re.MatchString(input) {
-			return v(re, input)
+			matched, importFunc = re, v
+			break
 		}
+	}
+	registryMu.RUnlock()
+	if importFunc != nil {
+		return importFunc(matched, input)
 	}
 
 	return nil, errors.New("unknown number format " + input)
